@@ -65,6 +65,7 @@ type Machine struct {
 	inExploreSplit bool
 	maxAlloc  int
 	poolMode  int
+	cpuAll    bool
 	poolPut   map[*Obj][]Val
 	concPos   int
 	ufOn      map[string]bool
@@ -224,6 +225,7 @@ func (m *Machine) resetPath() {
 	m.allocExplore = 0
 	m.maxAlloc = 0
 	m.poolMode = 0
+	m.cpuAll = false
 	m.poolPut = map[*Obj][]Val{}
 	m.concPos = 0
 	m.ufOn = map[string]bool{}
